@@ -92,6 +92,58 @@ def sandpile_k(cls):
     raise ValueError("self._K assignment not found")
 
 
+RUNTIME = r"""
+import sys, json, inspect
+sys.path.insert(0, sys.argv[1])
+import cellpylib as cpl
+from cellpylib.ctrbl_rule import CTRBLRule
+captured = {}
+orig = CTRBLRule.__init__
+sig = inspect.signature(orig)
+def wrap(self, *args, **kwargs):
+    b = sig.bind(self, *args, **kwargs)
+    b.apply_defaults()
+    table = b.arguments.get("rule_table")
+    rot = b.arguments.get("add_rotations")
+    entries = [[list(int(x) for x in k), int(v)] for k, v in table.items()]
+    orig(self, *args, **kwargs)
+    captured.setdefault(type(self).__name__, []).append(dict(entries=entries, rot=bool(rot), after=dict(self._rule_table)))
+CTRBLRule.__init__ = wrap
+out = {}
+try:
+    cpl.LangtonsLoop(); out["lang"] = dict(entries=captured["LangtonsLoop"][0]["entries"], rot=captured["LangtonsLoop"][0]["rot"])
+except Exception as e:
+    out["lang_err"] = repr(e)
+try:
+    cpl.Evoloop(); out["evo"] = dict(entries=captured["Evoloop"][0]["entries"], rot=captured["Evoloop"][0]["rot"])
+except Exception as e:
+    out["evo_err"] = repr(e)
+try:
+    o = cpl.SDSRLoop(); base = captured["SDSRLoop"][0]["after"]
+    out["extra"] = [[list(int(x) for x in k), int(v)] for k, v in o._rule_table.items() if k not in base or base[k] != v]
+except Exception as e:
+    out["extra_err"] = repr(e)
+try:
+    out["K"] = int(cpl.Sandpile(3, 3)._K)
+except Exception as e:
+    out["K_err"] = repr(e)
+print(json.dumps(out))
+"""
+
+
+def runtime_tables(repo):
+    """Fallback when the source no longer has the literal shape the AST reader expects: run the constructors of the
+    checkout's own classes and capture the table handed to `CTRBLRule.__init__`, its `add_rotations` flag, the entries
+    `SDSRLoop.__init__` sets afterwards, and `Sandpile._K`. (Duplicate keys of a dict literal are not visible this way.)"""
+    import json
+    import subprocess
+    p = subprocess.run([sys.executable, "-W", "ignore", "-c", RUNTIME, repo], stdout=subprocess.PIPE, stderr=subprocess.PIPE,
+                       text=True, timeout=300)
+    if p.returncode != 0:
+        raise ValueError("runtime extraction failed: " + p.stderr[-300:])
+    return json.loads(p.stdout.strip().splitlines()[-1])
+
+
 def lean_int(i):
     return str(i) if i >= 0 else "(%d)" % i
 
@@ -112,11 +164,48 @@ def main():
     ap.add_argument("--out", required=True)
     a = ap.parse_args()
     src = lambda f: ast.parse(open(os.path.join(a.repo, "cellpylib", f)).read())
+    how = {}
+    rt = {}
+
+    def piece(name, ast_fn, rt_fn):
+        try:
+            v = ast_fn()
+            how[name] = "ast"
+            return v
+        except Exception as e:  # noqa
+            if not rt:
+                rt.update(runtime_tables(a.repo))
+            how[name] = "runtime (source shape not recognised by the AST reader: %s)" % str(e)[:80]
+            return rt_fn()
+
+    def rt_table(key):
+        if key not in rt:
+            raise ValueError(rt.get(key + "_err", "no runtime value"))
+        return [(tuple(k), v) for k, v in rt[key]["entries"]], rt[key]["rot"]
+
+    def rt_extra():
+        if "extra" not in rt:
+            raise ValueError(rt.get("extra_err", "no runtime value"))
+        return [(tuple(k), v) for k, v in rt["extra"]]
+
+    def ast_extra():
+        out = sdsr_extra(find_class(src("sdsr_loop.py"), "SDSRLoop"))
+        # the literal reader only sees `self._rule_table[(…literals…)] = v` statements directly in __init__: make sure
+        # nothing else in __init__ writes the table
+        init = find_init(find_class(src("sdsr_loop.py"), "SDSRLoop"))
+        writes = sum(1 for n in ast.walk(init) if isinstance(n, ast.Subscript) and isinstance(n.ctx, ast.Store)
+                     and isinstance(n.value, ast.Attribute) and n.value.attr == "_rule_table")
+        calls = sum(1 for n in ast.walk(init) if isinstance(n, ast.Call) and isinstance(n.func, ast.Attribute)
+                    and isinstance(n.func.value, ast.Attribute) and n.func.value.attr == "_rule_table")
+        if writes != len(out) or calls:
+            raise ValueError("SDSRLoop.__init__ writes the table in a way the literal reader does not follow")
+        return out
+
     try:
-        lang, lang_rot = super_init_table(find_class(src("langtons_loop.py"), "LangtonsLoop"))
-        evo, evo_rot = super_init_table(find_class(src("evoloop.py"), "Evoloop"))
-        extra = sdsr_extra(find_class(src("sdsr_loop.py"), "SDSRLoop"))
-        K = sandpile_k(find_class(src("sandpile.py"), "Sandpile"))
+        lang, lang_rot = piece("langton", lambda: super_init_table(find_class(src("langtons_loop.py"), "LangtonsLoop")), lambda: rt_table("lang"))
+        evo, evo_rot = piece("evoloop", lambda: super_init_table(find_class(src("evoloop.py"), "Evoloop")), lambda: rt_table("evo"))
+        extra = piece("sdsr", ast_extra, rt_extra)
+        K = piece("K", lambda: sandpile_k(find_class(src("sandpile.py"), "Sandpile")), lambda: rt["K"])
     except Exception as e:  # noqa
         print("translator: source shape not recognised: %s" % e)
         sys.exit(1)
@@ -140,6 +229,8 @@ def main():
         print("translator: wrote %s (langton %d entries, evoloop %d, sdsr extra %d, K=%d)" % (path, len(lang), len(evo), len(extra), K))
     else:
         print("translator: up to date (langton %d entries, evoloop %d, sdsr extra %d, K=%d)" % (len(lang), len(evo), len(extra), K))
+    if any(v != "ast" for v in how.values()):
+        print("translator: " + "; ".join("%s via %s" % kv for kv in how.items() if kv[1] != "ast"))
 
 
 if __name__ == "__main__":
